@@ -12,10 +12,10 @@ import os
 
 
 def run(chk, pid: str):
-    try:
-        mod = importlib.import_module(f"sa.mutants.{pid.lower()}")
-    except ModuleNotFoundError:
-        chk.notes["self_validation"] = "no self-validation corpus registered for this property yet"
+    from .mutants.registry import MUTANTS
+    corpus = MUTANTS.get(pid)
+    if not corpus:
+        chk.notes["self_validation"] = "no self-validation corpus registered for this property"
         return
     from .mutate import run_corpus
-    run_corpus(chk, pid, mod.MUTANTS)
+    run_corpus(chk, pid, corpus)
